@@ -360,6 +360,15 @@ class HGen:
 
         shape = rng.choice(["diamond", "diamond", "diamond", "long-arm", "three", "unrelated", "double"])
         root = define(["Structure"], 0.0, rng.randint(1, 3))
+        # a Constant at the shared root that ONE branch replaces by a Field (or by another Constant): the join sees
+        # the name as a Constant through one base and as a Field through the other (which one it is must be read from
+        # the class dicts along the MRO: /repo f0f7ce1)
+        const_name = None
+        if rng.random() < 0.35:
+            free = [x for x in FIELD_NAMES if x not in visible[root]]
+            if free:
+                const_name = rng.choice(free)
+                steps[0]["src"]["entries"].append([const_name, self.const_entry()])
         if shape == "unrelated":
             other = define(["Structure"], 0.0, rng.randint(1, 2))
             # the second root re-declares some of the first root's names on its own
@@ -379,6 +388,17 @@ class HGen:
                 arms.append(define([root], 0.5, rng.randint(0, 1)))
             if shape == "double":
                 arms = [define([left, right], 0.2, 0), define([root], 0.5, 1)]
+        if const_name is not None:
+            which = rng.choice(arms)
+            st = next(x for x in steps if x["op"] == "define" and x["src"]["name"] == which)
+            if which != root:
+                st["src"]["entries"] = [p for p in st["src"]["entries"] if p[0] != const_name]
+                if rng.random() < 0.75:
+                    e = self.plain_field(self.constrained_decl(), p_default=0.3)
+                    st["src"]["entries"].append([const_name, e])
+                    visible[which][const_name] = e["decl"]
+                else:
+                    st["src"]["entries"].append([const_name, self.const_entry()])
         rng.shuffle(arms) if rng.random() < 0.35 else None
         bases = list(arms)
         if rng.random() < 0.15:
